@@ -272,6 +272,27 @@ def forest_check(prop, tier, seed):
                                 ff.add(gen.node("elem", ns="u1", ln="a"), r)
                         (housed(), bare()) if ns_decl_first else (bare(), housed())
                         gchosen.append(ff.state())
+        if extra != "ws":
+            # a prefix spelled like a GENERATED one (n0, n1) already declared, for another namespace, 1 to 3 levels below the
+            # node that is repaired, and a name in an undeclared namespace underneath it (as element and as attribute): the
+            # prefix create_missing_prefixes invents on top must not be one that is shadowed on the way down
+            for gp in ("n0", "n1"):
+                for depth in (1, 2, 3):
+                    for as_attr in (False, True):
+                        ff = gen.Forest(True)
+                        cur = ff.add(gen.node("elem", ln="r"))
+                        if gp == "n1":
+                            ff.add(gen.node("elem", ns="u3", ln="z"), cur)      # a first missing namespace takes n0
+                        for lv in range(depth - 1):
+                            cur = ff.add(gen.node("elem", ln="abc"[lv % 3]), cur)
+                        x = ff.add(gen.node("elem", ln="x"), cur)
+                        ff.add(gen.node("nsn", ln=gp, u="u2"), x)
+                        if as_attr:
+                            e = ff.add(gen.node("elem", ln="e"), x)
+                            ff.add(gen.node("attr", ns="u1", ln="a", t=gen.cps("v")), e)
+                        else:
+                            ff.add(gen.node("elem", ns="u1", ln="a"), x)
+                        gchosen.append(ff.state())
         sp2 = os.path.join(d, "gstates.ndjson")
         with open(sp2, "w") as f:
             for st in gchosen:
